@@ -16,19 +16,50 @@ var (
 	c01DstLen = []int{0, 3}
 )
 
-// c01SealOpen: Seal then Open through the public cipher.AEAD interface for one (variant, |pt|,
-// |ad|, dst shape) with ALL keys, nonces, plaintexts, additional data and dst contents symbolic.
-func c01SealOpen(x bool, nPt, nAd, nDst, capMode int) {
+// vGeneric drives sealGeneric/openGeneric directly (the portable code also natively, where
+// the public Seal/Open dispatch to the amd64 assembly), as a cipher.AEAD.
+type vGeneric struct{ c *chacha20poly1305 }
+
+func (g vGeneric) NonceSize() int { return NonceSize }
+func (g vGeneric) Overhead() int  { return Overhead }
+func (g vGeneric) Seal(dst, nonce, plaintext, ad []byte) []byte {
+	return g.c.sealGeneric(dst, nonce, plaintext, ad)
+}
+func (g vGeneric) Open(dst, nonce, ciphertext, ad []byte) ([]byte, error) {
+	return g.c.openGeneric(dst, nonce, ciphertext, ad)
+}
+
+func vNewGeneric(key []byte) vGeneric {
+	c := new(chacha20poly1305)
+	copy(c.key[:], key)
+	return vGeneric{c}
+}
+
+const (
+	c01Public  = 0 // New(key) -> cipher.AEAD
+	c01PublicX = 1 // NewX(key) -> cipher.AEAD
+	c01Generic = 2 // sealGeneric / openGeneric called directly
+)
+
+// c01SealOpen: Seal then Open for one (variant, |pt|, |ad|, dst shape) with ALL keys, nonces,
+// plaintexts, additional data and dst contents symbolic.
+func c01SealOpen(mode int, nPt, nAd, nDst, capMode int) {
+	vChaAbstract, vMacReal = false, false
 	key := verifrt.Bytes(32)
 	var a cipher.AEAD
 	var err error
 	var nonce, rk, rn []byte
-	if x {
+	switch mode {
+	case c01PublicX:
 		a, err = NewX(key)
 		nonce = verifrt.Bytes(24)
 		rk, rn = vXParams(key, nonce)
-	} else {
+	case c01Public:
 		a, err = New(key)
+		nonce = verifrt.Bytes(12)
+		rk, rn = key, nonce
+	default:
+		a = vNewGeneric(key)
 		nonce = verifrt.Bytes(12)
 		rk, rn = key, nonce
 	}
@@ -77,41 +108,80 @@ func c01SealOpen(x bool, nPt, nAd, nDst, capMode int) {
 	}
 }
 
-// Verif_C01_Seal: ChaCha20-Poly1305 Seal = dst | RFC 8439 section 2.8 ciphertext | tag and
-// Open(Seal) = dst | pt, for ALL keys, nonces and data; |pt| in {0,1,15,16,17,63,64,65,129},
-// |ad| in {0,1,13,16,17}, |dst| in {0,3} with spare capacity none / exact. Poly1305 is an
-// uninterpreted function of (key, message bytes); ChaCha20 is the real code.
-func Verif_C01_Seal() {
+// Verif_C01_Generic: sealGeneric output = dst | RFC 8439 section 2.8 ciphertext | tag and
+// openGeneric(sealGeneric) = dst | pt, for ALL keys, nonces and data; |pt| in
+// {0,1,15,16,17,63,64,65,129}, |ad| in {0,1,13,16,17}, |dst| in {0,3} with spare capacity
+// none / exact / one byte short. Poly1305 is an uninterpreted function of (key, message
+// bytes); ChaCha20 is the real code.
+func Verif_C01_Generic() {
 	nPt := c01LensQ[verifrt.Choose(0, len(c01LensQ)-1)]
 	nAd := c01AdsQ[verifrt.Choose(0, len(c01AdsQ)-1)]
 	shape := verifrt.Choose(0, 2) // (|dst|, capMode): (0,0) (3,1) (3,3)
-	c01SealOpen(false, nPt, nAd, []int{0, 3, 3}[shape], []int{0, 1, 3}[shape])
+	c01SealOpen(c01Generic, nPt, nAd, []int{0, 3, 3}[shape], []int{0, 1, 3}[shape])
 }
 
-// Verif_C01_XSeal: the same for XChaCha20-Poly1305 (24-byte nonce): subkey = HChaCha20(key,
-// nonce[0:16]), inner nonce = 0^4 | nonce[16:24]; |pt| in {0,1,16,65}, |ad| in {0,13,17}.
+// Verif_C01_Seal: the same through the public New(key).Seal/Open wrappers (engine: purego
+// dispatch to the generic code; natively: the assembly when available); |pt| in {0,1,17,65},
+// |ad| in {0,13,16}, two dst shapes.
+func Verif_C01_Seal() {
+	nPt := []int{0, 1, 17, 65}[verifrt.Choose(0, 3)]
+	nAd := []int{0, 13, 16}[verifrt.Choose(0, 2)]
+	shape := verifrt.Choose(0, 1)
+	c01SealOpen(c01Public, nPt, nAd, []int{0, 3}[shape], []int{0, 2}[shape])
+}
+
+// Verif_C01_XSeal: XChaCha20-Poly1305 (24-byte nonce) through NewX(key).Seal/Open: subkey =
+// HChaCha20(key, nonce[0:16]), inner nonce = 0^4 | nonce[16:24]; |pt| in {0,1,16,65}, |ad| in
+// {0,13,17}.
 func Verif_C01_XSeal() {
 	nPt := []int{0, 1, 16, 65}[verifrt.Choose(0, 3)]
 	nAd := []int{0, 13, 17}[verifrt.Choose(0, 2)]
 	shape := verifrt.Choose(0, 1)
-	c01SealOpen(true, nPt, nAd, []int{0, 3}[shape], []int{0, 2}[shape])
+	c01SealOpen(c01PublicX, nPt, nAd, []int{0, 3}[shape], []int{0, 2}[shape])
 }
 
-// Verif_C01_SealT (thorough): 25 plaintext lengths up to 257 (all neighbours of multiples of 16
-// and 64 up to 256) x 12 AD lengths up to 65, four dst shapes.
-func Verif_C01_SealT() {
+// Verif_C01_GenericT (thorough): 25 plaintext lengths up to 257 (all neighbours of multiples
+// of 16 and 64 up to 256) x 12 AD lengths up to 65, four dst shapes.
+func Verif_C01_GenericT() {
 	nPt := c01LensT[verifrt.Choose(0, len(c01LensT)-1)]
 	nAd := c01AdsT[verifrt.Choose(0, len(c01AdsT)-1)]
 	shape := verifrt.Choose(0, 3)
-	c01SealOpen(false, nPt, nAd, []int{0, 3, 3, 3}[shape], []int{0, 1, 2, 3}[shape])
+	c01SealOpen(c01Generic, nPt, nAd, []int{0, 3, 3, 3}[shape], []int{0, 1, 2, 3}[shape])
 }
 
-// Verif_C01_XSealT (thorough): XChaCha20-Poly1305 over the quick length sets of Verif_C01_Seal.
+// Verif_C01_SealT / Verif_C01_XSealT (thorough): public wrappers over the quick length sets
+// of Verif_C01_Generic.
+func Verif_C01_SealT() {
+	nPt := c01LensQ[verifrt.Choose(0, len(c01LensQ)-1)]
+	nAd := c01AdsQ[verifrt.Choose(0, len(c01AdsQ)-1)]
+	shape := verifrt.Choose(0, 2)
+	c01SealOpen(c01Public, nPt, nAd, []int{0, 3, 3}[shape], []int{0, 1, 3}[shape])
+}
+
 func Verif_C01_XSealT() {
 	nPt := c01LensQ[verifrt.Choose(0, len(c01LensQ)-1)]
 	nAd := c01AdsQ[verifrt.Choose(0, len(c01AdsQ)-1)]
 	shape := verifrt.Choose(0, 2)
-	c01SealOpen(true, nPt, nAd, []int{0, 3, 3}[shape], []int{0, 1, 3}[shape])
+	c01SealOpen(c01PublicX, nPt, nAd, []int{0, 3, 3}[shape], []int{0, 1, 3}[shape])
+}
+
+// Verif_C01_RealMAC: sealGeneric with the REAL generic Poly1305 on both sides (no MAC
+// abstraction): the impl's chunked Write calls and the reference's single Sum over the
+// assembled message must give the same tag terms; |pt| in {0,17,64}, |ad| in {0,13}.
+func Verif_C01_RealMAC() {
+	nPt := []int{0, 17, 64}[verifrt.Choose(0, 2)]
+	nAd := []int{0, 13}[verifrt.Choose(0, 1)]
+	vChaAbstract, vMacReal = false, true
+	key := verifrt.Bytes(32)
+	nonce := verifrt.Bytes(12)
+	pt := verifrt.Bytes(nPt)
+	ad := verifrt.Bytes(nAd)
+	out := vNewGeneric(key).Seal(nil, nonce, pt, ad)
+	want := vRefSeal(key, nonce, pt, ad)
+	verifrt.Assert(len(out) == len(want), "length")
+	for i := range want {
+		verifrt.Assert(out[i] == want[i], "sealGeneric = RFC 8439 AEAD with real Poly1305")
+	}
 }
 
 // Verif_C01_Guards: the public wrappers panic exactly on a wrong nonce length (Seal and Open,
